@@ -361,6 +361,46 @@ def run(ctx, rep):
                 if not err and 7 in registered:
                     bad_t.append("event %r (readable): the descriptor stays registered with the poll object while a worker serves "
                                  "it - the polling thread reports it again and a second worker reads the same connection" % evt)
+        # a batch: one client's event handling fails (its close() raises / it was dropped meanwhile), the next one has data
+        bad_b = []
+        for first_kind in ("close raises", "already dropped"):
+            dropped, queued = [], []
+
+            class _Obj2:
+                mi_native = True
+
+                def __init__(self, **kw):
+                    self.__dict__.update(kw)
+            noop = lambda *a, **k: None
+            registered = {5, 7} if first_kind == "close raises" else {7}
+
+            def unreg2(fd, registered=registered):
+                if fd not in registered:
+                    raise MIp.Raised("KeyError")
+                registered.discard(fd)
+
+            def close5():
+                raise MIp.Raised("OSError")
+            conns = {7: _Obj2(close=lambda: dropped.append(7), fileno=lambda: 7)}
+            if first_kind == "close raises":
+                conns[5] = _Obj2(close=close5, fileno=lambda: 5)
+            st_ = {"poll_object": _Obj2(unregister=unreg2, register=lambda fd, *a: registered.add(fd), modify=noop, poll=lambda *a: []),
+                   "_active_connection_queue": _Obj2(put=queued.append, get=noop), "fd_to_conn": conns,
+                   "logger": _Obj2(debug=noop, info=noop, warning=noop, warn=noop, error=noop, exception=noop)}
+            tp_meths = {n_: m_.node for n_, m_ in ctx.cls(SRV + ".ThreadPoolServer").methods.items() if n_ not in ("_handle_poll_result",)}
+            err_evt = next((e_ for e_ in ("h", "e", "n") if e_ in producible), "h")
+            try:
+                MIp.call_method(fhp.node, st_, [[(5, err_evt), (7, "r")]], {"__methods__": tp_meths, "__max_iter__": 100})
+                outcome = "returns"
+            except MIp.Raised as r_:
+                outcome = "raises %s" % r_.name
+            if not (7 in registered or 7 in queued or 7 in dropped):
+                bad_b.append("batch [(5, error: %s), (7, readable)]: the call %s and descriptor 7 is neither polled any more nor "
+                             "queued for a worker - its request is never served" % (first_kind, outcome))
+            if first_kind == "already dropped" and queued != [7]:
+                bad_b.append("batch [(5, already dropped), (7, readable)]: queued %s, expected [7]" % queued)
+        rep.ob("R16.2", "ThreadPoolServer._handle_poll_result: a failure while handling one descriptor of a batch loses no other", not bad_b,
+               "2 batches: the other descriptor stays polled or is queued" if not bad_b else "; ".join(bad_b[:2]), fhp.loc, kind="table")
         rep.ob("R16.2", "ThreadPoolServer._handle_poll_result: a handled descriptor is no longer polled; a dropped one leaves no table "
                "entry", not bad_t, "%d producible events: unregistered from the poll object%s" % (n_ev, ", removed from fd_to_conn when dropped")
                if not bad_t else "; ".join(bad_t[:3]) + " (a closed descriptor left in the poll set is reported as invalid on every "
